@@ -63,6 +63,7 @@ type khook struct {
 	Binds    []kbind
 	SnapCron string // crontab of the hook's "snap" schedule binding (includes every kubernetes binding)
 	SyncFail int    // scripted failures of the hook's first executions
+	FailAt   []int  // further executions of the hook that fail (by execution index)
 }
 
 type kop struct {
@@ -381,6 +382,9 @@ func runKCaseR(c *vlib.Case, kc *kcase, restart bool, install, drive, recipe fun
 	for _, kh := range kc.Hooks {
 		hs.AddHook(kh.Rel, 0o755, cfgJSON(kc.hookConfig(kh)))
 		for i := 0; i < kh.SyncFail; i++ {
+			hs.Plan(kh.Rel, i, vhk.Directive{Exit: 1})
+		}
+		for _, i := range kh.FailAt {
 			hs.Plan(kh.Rel, i, vhk.Directive{Exit: 1})
 		}
 	}
